@@ -66,6 +66,17 @@ fn escape_table() -> Vec<String> {
         }
     }
     for tail in ["\\", "\\\\", "\\\\\\", "\\\"", "\\\"\\", "\"\\", "\"\"\\"] { v.push(format!(".stringz \"{tail}")); v.push(format!(".stringz \"a{tail}\nHALT")); }
+    // characters whose upper- or lower-casing changes their UTF-8 length (the lexer and parser fold case in several places),
+    // in every token position and at the very end of the input
+    for c in ['\u{149}', '\u{1f0}', '\u{390}', '\u{fb01}', '\u{131}', '\u{17f}', '\u{130}', '\u{212a}', 'ß', '\u{1e9e}', '\u{587}'] {
+        for pre in [".", ".o", ".orig", ".fil", "", "R", "r", "x", "#", "BR", "br", "ADD", "LABEL", "TRAP x", "\""] {
+            v.push(format!("{pre}{c}"));
+            v.push(format!("{pre}{c}{c}{c}"));
+            v.push(format!(".orig x3000\n{pre}{c}"));
+            v.push(format!(".orig x3000\n{pre}{c} 5\n.end"));
+            v.push(format!("{pre}{c}a{c} R0, R0, #1 ; {c}"));
+        }
+    }
     // huge literals
     for n in [65533usize, 65534, 65535, 65536, 65537, 70000] {
         v.push(format!(".stringz \"{}\"", "a".repeat(n)));
@@ -87,7 +98,7 @@ fn escape_table() -> Vec<String> {
 
 const SOUP: &[&str] = &["\"", "\"", "\\", "\\", "\n", "\n", "\r\n", "\r", " ", "\t", ",", ":", ";", ".", "#", "-", "x", "X", "R", "r", "0", "1", "7", "8", "9", "65535", "65536", "-32768", "-32769", "xFFFF", "x10000",
     "ADD", "and", "NoT", "BR", "BRnzp", "BRpz", "JMP", "JSR", "JSRR", "LD", "LDI", "LDR", "LEA", "ST", "STI", "STR", "TRAP", "NOP", "RET", "RTI", "GETC", "OUT", "PUTC", "PUTS", "IN", "PUTSP", "HALT",
-    ".orig", ".ORIG", ".fill", ".blkw", ".stringz", ".end", ".external", ".bogus", "R0", "R7", "R8", "r3", "LABEL", "l_1", "_", "é", "ß", "λ", "Ж", "中", "🦀", "٣", "\0", "\u{7f}", "\u{1}", "\u{feff}", "\u{2028}",
+    ".orig", ".ORIG", ".fill", ".blkw", ".stringz", ".end", ".external", ".bogus", "R0", "R7", "R8", "r3", "LABEL", "l_1", "_", "é", "ß", "λ", "Ж", "中", "🦀", "٣", "\u{149}", "\u{390}", "\u{fb01}", "\u{131}", "\u{130}", "\0", "\u{7f}", "\u{1}", "\u{feff}", "\u{2028}",
     "x3000", "#5", "#-5", "x-A", "\\n", "\\\"", "\\0", "a", "Z", "+", "=", "|", "@", "'", "(", ")", "[", "/", "*", "`"];
 
 fn soup(rng: &mut Rng) -> String {
